@@ -104,6 +104,13 @@ TraceComputeOk ==
            num => /\ Ev.glob.gvrfin = Ev.glob.gvrmodelfin
                   /\ (Ev.glob.gvrfin /\ ~Ev.glob.gvrbad) =>
                         Abs(Ev.glob.gvr - Ev.glob.gvrmodel) <= 2 + Ev.glob.gvrmodel \div 5000)
+  \* on a closed model with positive sizes, physical data and a thermal envelope (all decided from the model, nothing the
+  \* code reported) every figure is a number: the obligations below are never escaped by reporting NaN or infinity
+  /\ LET sized == "sane_in" \in DOMAIN Ev /\ Ev.sane_in /\ Sane(x) /\ ARefBig(x, Ev.props) # BigZero /\ VolNetBig(x, Ev.props) # BigZero IN
+     /\ Chk("C08", "ReportedFiguresAreNumbers", sized => (Ev.badk = 0 /\ Ev.badother = 0))
+     /\ Chk("C09", "ReportedFiguresAreNumbers", sized => (Ev.badn50 = 0 /\ Ev.badother = 0))
+     /\ Chk("C10", "ReportedFiguresAreNumbers", sized => (Ev.badq = 0 /\ Ev.badother = 0 /\ Ev.q.nonfinite = <<>>))
+     /\ Chk("C11", "ReportedFiguresAreNumbers", sized => Ev.badother = 0)
   /\ Chk("C08", "K",    num => KOk(x, Ev.props, Ev.k))
   /\ Chk("C09", "N50",  num => N50Ok(x, Ev.props, Ev.glob, Ev.n50))
   /\ Chk("C10", "QSol", num => QSolOk(x, Ev.props, Ev.glob, Hz[x.meta.zone], Ev.q))
